@@ -204,6 +204,9 @@ def machine : Machine where
         let kv := parseKv rest
         ({ d with progs := setAt d.progs (kv.nat "t" 0) [] (parseProg (kv.str "prog" "")) }, [])
     | "manual" :: "sched" :: rest =>
+        -- an inverted range (min_budget > max_budget) is rejected at construction (`Ord::clamp` panics): no budget
+        -- exists, nothing runs. The theorems assume `minLimit ≤ maxLimit` (`wf_aimd`); this is the other case.
+        if d.cfg.aimd && d.cfg.minLimit > d.cfg.maxLimit then (d, [Ev.raw "construct panic"]) else
         let kv := parseKv rest
         let sched := ((kv.str "s" "").splitOn ",").filterMap (·.toNat?)
         let s := runAll d.cfg d.progs sched
